@@ -565,6 +565,9 @@ htp_status_t htp_mpart_part_finalize_data(htp_multipart_part_t *part) {
         if (bstr_builder_size(part->parser->part_data_pieces) > 0) {
             part->value = bstr_builder_to_str(part->parser->part_data_pieces);
             bstr_builder_clear(part->parser->part_data_pieces);
+        } else if (part->type == MULTIPART_PART_TEXT) {
+            // A text part without data has an empty value, not a missing one.
+            part->value = bstr_dup_c("");
         }
     }
 
